@@ -1,6 +1,6 @@
 (** C04 — the fixed file is exactly the fixed tree; templated code is untouched. Pinned statements only. *)
 From Sq Require Import Base.Bytes Patch.Model Patch.Proofs Patch.Legacy Patch.SpanModel Patch.SpanProofs.
-From Sq Require Import Patch.TemplatedModel Patch.TemplatedWeave Patch.TemplatedTree.
+From Sq Require Import Patch.TemplatedModel Patch.TemplatedWeave Patch.TemplatedTree Patch.TemplatedRender.
 From Sq Require Templ.Model Templ.ProcProofs.
 
 (** What [fix_string] writes for ANY list of patches is the source with the normalised patches
@@ -70,6 +70,29 @@ Theorem C04_templated_tree_side : forall tf s ds, dpatches tf s = Some ds ->
   splice_r (tpl tf) (t0 (seg_pos s)) (t1 (seg_pos s)) (map tpatch ds) = raw s.
 Proof. exact dpatches_T. Qed.
 Print Assumptions C04_templated_tree_side.
+
+(** The same with the placeholder templater in the loop (Templ/Model.v, C15): when the templated file is what
+    [process] makes of the source (captures [caps] as the regex engine returned them, contract [caps_ok]) and the
+    final tree is [tree_ok], the fixed source is literal pieces woven around the captures' own texts, and the
+    templater run again on the fixed source with the same parameter values - on the captures relocated to where
+    the weave puts them, same names and texts ([reloc]; that the regex engine finds exactly these is its contract
+    here and is what the recorded finding "placeholder fused with its neighbour" breaks) - succeeds and renders
+    exactly the raw of the final tree. *)
+Theorem C04_templated_rerender : forall sr vals caps r rs t,
+  Templ.ProcProofs.caps_ok caps 0 (Templ.Model.len sr) ->
+  Templ.Model.process sr vals caps = Templ.Model.ROk r ->
+  tree_ok (mkTf sr (Templ.Model.tf_tpl r) rs) (Templ.Model.tf_sl r) t = true ->
+  exists lits,
+    let tf := mkTf sr (Templ.Model.tf_tpl r) rs in
+    let caps' := reloc sr lits caps 0 in
+    length lits = S (length caps) /\
+    fixed_text tf t = weave lits (map (cap_txt sr) caps) /\
+    map Templ.Model.cname caps' = map Templ.Model.cname caps /\
+    Templ.ProcProofs.caps_ok caps' 0 (Templ.Model.len (fixed_text tf t)) /\
+    Templ.ProcProofs.render_spec (fixed_text tf t) vals caps' 0 1 = Some (raw t) /\
+    exists r', Templ.Model.process (fixed_text tf t) vals caps' = Templ.Model.ROk r' /\ Templ.Model.tf_tpl r' = raw t.
+Proof. exact templated_rerender. Qed.
+Print Assumptions C04_templated_rerender.
 
 (** Before the repair (dedupe on the source slice alone, region looked up among all patches) a
     sorted, non-overlapping patch list with two different insertions at one position lost one. *)
